@@ -94,7 +94,7 @@ def _line_of(src, off):
 
 
 class Weaver:
-    def __init__(self, unit_path, repo=REPO, canary=False, cfg=None, inline_helpers=None, ghost_free=False):
+    def __init__(self, unit_path, repo=REPO, canary=False, cfg=None, inline_helpers=None, ghost_free=False, loopless_ok=False):
         self.unit_path = unit_path
         self.unit = os.path.splitext(os.path.basename(unit_path))[0]
         self.repo = repo
@@ -107,6 +107,7 @@ class Weaver:
         self.rules = []         # R1 / E6 applications
         self.assumptions = []   # external_body / assume_specification / uninterp occurrences
         self.inline_helpers = set(inline_helpers or [])
+        self.loopless_ok = loopless_ok    # rule R4 (retry only): a function that has no loop any more is woven without its loop clauses
         self.ghost_free = ghost_free      # emit extracted functions with rule R1 applied but without any contract / proof text
         self._src_cache = {}
         # `//@cfg-bodies` anywhere in the unit: #[cfg(..)] inside extracted text is evaluated (rule E3 applied to bodies)
@@ -279,6 +280,13 @@ class Weaver:
         body_loops = rs.loops(s, lo, hi, m)
         info.loops = len(body_loops)
         want_loops = sorted(set(int(k) for k in d.get('loops', {}).keys()) | set(int(k) for k in d.get('at_loop', {}).keys()))
+        if want_loops and not body_loops and self.loopless_ok:
+            # R4: the loop went away (moved into a helper, replaced by a field read, ...): loop invariants are proof aids, the
+            # function contract stays as it is and is what gets checked
+            self.rules.append({'rule': 'R4 loop clauses dropped: the function has no loop any more', 'fn': fname, 'dropped_loops': want_loops})
+            info.rules.append('R4')
+            d = dict(d); d['loops'] = {}; d['at_loop'] = {}
+            want_loops = []
         for n in want_loops:
             if n < 1 or n > len(body_loops):
                 raise AnchorLost('%s :: %s: loop %d not found (function has %d loops)' % (rel, path, n, len(body_loops)))
@@ -337,9 +345,23 @@ class Weaver:
                     for idx, c in enumerate(cl):
                         clauses_txt.append((c + '\n', {'k': 'clause', 'fn': fname, 'kind': 'loop%d.%s' % (n, kind), 'idx': idx}))
                     info.clauses['loop%d.%s' % (n, kind)] = len(cl)
+            r3 = None
+            if lp.kind == 'for':
+                # R3: `for &x in EXPR { BODY }`  ==>  `for x in EXPR { let x = *x; BODY }` (Verus has no reference patterns;
+                # identical for the Copy element types the rule is restricted to by rustc itself: `&x` moves out of the reference)
+                pat0 = s[lp.kw + 3:lp.in_kw]
+                m3 = re.fullmatch(r'\s*&\s*([A-Za-z_][A-Za-z0-9_]*)\s*', pat0)
+                if m3:
+                    r3 = m3.group(1)
+                    self.rules.append({'rule': 'R3 deref-pattern', 'fn': fname, 'loop': n, 'pattern': pat0.strip(), 'repo_line': _line_of(s, lp.kw)})
+                    info.rules.append('R3@loop%d' % n)
+                    add(lp.body_open + 1, 4, ' let %s = *%s;' % (r3, r3), {'k': 'ghost', 'fn': fname, 'what': 'R3'})
+                    if not desugar:
+                        amp = lp.kw + 3 + pat0.index('&')
+                        ins.append((amp, -1, ('CUT', amp + 1), None))
             if lp.kind == 'for' and desugar:
                 # R1: for PAT in EXPR { BODY }  ==>  { let mut __itN = (EXPR).into_iter(); loop INV { match __itN.next() { None => break, Some(PAT) => { BODY } } } }
-                pat = s[lp.kw + 3:lp.in_kw].strip()
+                pat = r3 if r3 else s[lp.kw + 3:lp.in_kw].strip()
                 expr = s[lp.in_kw + 2:lp.body_open].strip()
                 self.rules.append({'rule': 'R1 for-desugaring', 'fn': fname, 'loop': n, 'pattern': pat, 'expr': expr, 'repo_line': _line_of(s, lp.kw)})
                 info.rules.append('R1@loop%d' % n)
